@@ -181,7 +181,7 @@ def run_unit(uid, sources, harness, enforce=None, replace=(), loop_contracts=Fal
                 raise Undecided("goto-cc failed: " + (err or out)[-600:])
             cur = a
             if enforce or replace or loop_contracts:
-                cmd = ["goto-instrument", "--dfcc", harness]
+                cmd = ["goto-instrument", "--dfcc", harness] + [f for f in cbmc_flags if f in ("--no-malloc-may-fail", "--malloc-may-fail", "--malloc-fail-null")]
                 if enforce:
                     cmd += ["--enforce-contract", enforce]
                 for g in replace:
